@@ -649,7 +649,10 @@ class Translator:
             self.ex.fail(e, 'magnitude: unsupported term')
         magsq = tr(v.args[0].func.value)
         rb = [n for n in mg.body if isinstance(n, ast.If) and ast.unparse(n.test) == 'self.is_real']
-        if len(rb) != 1 or 'dst = expr(abs(self.sympy))' not in [ast.unparse(x) for x in rb[0].body]:
+        # |x| for real x; the wrapper may be expr(..) or self.__class__(.., **self.assumptions) (same value, keeps class/units)
+        real_ok = ('dst = expr(abs(self.sympy))', 'dst = self.__class__(abs(self.sympy), **self.assumptions)')
+        rbody = [ast.unparse(x) for x in rb[0].body] if len(rb) == 1 else []
+        if sum(rbody.count(x) for x in real_ok) != 1 or [x for x in rbody if x.startswith('dst =') and x not in real_ok]:
             self.ex.fail(mg, 'magnitude: real branch is not abs(self.sympy)')
         # phase
         ph = self.ex.func(cls, 'phase')
